@@ -101,7 +101,7 @@ def meta_oracle_idx(v0, v1, v2, v3):
     "drives the walk over this finite box (symbolic strings made each path cost >1 s of string-theory solving: measured, abandoned)",
     outside="characters outside ALPH; several symbolic fields in one comment; ':' inside values; longer texts",
     encodes=["csvpath/util/metadata_parser.py:MetadataParser.extract_csvpath_and_comment/collect_metadata"],
-    tiers={"quick": {"timeout": 900, "K": {"NV": 3}, "shards": product(f0=[-1, 0, 1, 2, 3, 4, 5, 6], f1=[-1])}, "thorough": {"timeout": 6000, "K": {"NV": 3}, "shards": product(f0=[-1, 0, 1, 2, 3, 4, 5, 6], f1=[-1, 0, 3, 5, 6])}},
+    tiers={"quick": {"timeout": 900, "K": {"NV": 3}, "shards": product(f0=[-1, 0, 1, 2, 3, 4, 5, 6], f1=[-1]) + product(f0=[6], f1=[6, 0])}, "thorough": {"timeout": 6000, "K": {"NV": 3}, "shards": product(f0=[-1], f1=[-1]) + product(f0=[0, 1, 2, 3, 4, 5, 6], f1=[-1, 0, 3, 5, 6])}},
 )
 def metadata(f0: int, f1: int, ki: int, v0: int, v1: int, v2: int, v3: int) -> Tuple[str, Optional[str]]:
     with NoTracing():
